@@ -63,6 +63,11 @@ CHECKS = {
   text="Every grammar of the enumerated family is loaded into a fresh real interpreter and queried with phrase/2 and phrase/3 for every input list up to the bound, for all remainders, and in generation mode; success/failure, the bindings of the non-terminals' arguments, the remainder and the answer order must equal those of a reference that interprets grammar bodies directly over difference lists and never translates a rule.",
   note="Trusted: the direct DCG interpreter in ref/solve.go (sequence, alternation, {}, \\+, !, call//N, if-then-else, push-back) and the reference machine underneath.",
   design="DESIGN.md §3 C17"),
+ "C18": dict(
+  technique="explicit-state breadth-first search over op/3 histories: every transition is one op/3 call executed on the real interpreter (history replayed on a fresh instance) and on a reference operator table; states = distinct tables; after every transition current_op/3 in all instantiation patterns, reader probes and writer probes are compared with the model",
+  text="All op/3 histories over the alphabet are explored to depth 2 (quick) / 3 (thorough, plus the full alphabet incl. invalid priorities, specifiers and name lists to depth 2); each reached table state is probed completely once: success/error, the whole table through current_op/3 (a failing call must leave it unchanged), current_op/3 in all 8 instantiation patterns for 6 names x all specifiers/priorities, whether prefix/infix/postfix use parses and how it associates, and whether writeq uses operator notation.",
+  note="Trusted: ref/optable.go (ISO 8.14.3 / 6.3.4.3). The initial table is read from a fresh instance. Which error a failing op/3 raises is left to C05.",
+  design="DESIGN.md §3 C18"),
  "C16": dict(
   technique="bounded-exhaustive enumeration of call patterns on the real interpreter against relations computed by brute force: every instantiation pattern the modes admit x every combination of bound values (matching and non-matching), answers compared as multisets; infinite / variable-creating modes against the reference machine",
   text="For each of the 17 predicates the complete relation over a finite domain (multi-byte characters, lists, integers near the 64-bit limits) is enumerated by brute force and every admissible call pattern is compared with the matching subset of the relation, each tuple exactly once - which also yields the monotonicity clause of the property.",
